@@ -122,6 +122,10 @@ func AuthorizeClientIDSecret(ctx context.Context, clientID, clientSecret string,
 	ctx, span := tracer.Start(ctx, "AuthorizeClientIDSecret")
 	defer span.End()
 
+	if clientSecret == "" {
+		// an empty secret never authenticates (see ClientBasicAuth)
+		return oidc.ErrInvalidClient().WithDescription("invalid client_id / client_secret")
+	}
 	err := storage.AuthorizeClientIDSecret(ctx, clientID, clientSecret)
 	if err != nil {
 		return oidc.ErrInvalidClient().WithDescription("invalid client_id / client_secret").WithParent(err)
